@@ -230,6 +230,11 @@ def r3_flavour(chk):
             norm(v2) if v2 is not None else None))
 
 
+def ir_conjuncts(test):
+    from rules.ir import conjuncts
+    return conjuncts(test)
+
+
 def r4_requested_stay_eligible(chk):
     r = cr.infer(chk.model)
     chk.doc('C19.R4', 'each noDeps exclusion in the borrow stages also requires `<name> not in <names given to '
@@ -240,6 +245,19 @@ def r4_requested_stay_eligible(chk):
         chk.ob('C19.R4', 'compile/borrow-stage', False, r.mod.rel, 'first borrow stage not recognised (C19.R1)')
         return
     bmap, k0, floop, bloop = r._c19
+    # names that hold every requested name: the *args parameter itself or a set/list/tuple built from it
+    req = set([vararg])
+    for s0 in r.fn.body:
+        if isinstance(s0, ast.Assign) and isinstance(s0.targets[0], ast.Name) and isinstance(s0.value, ast.Call) and \
+                dotted_name(s0.value.func) in ('set', 'frozenset', 'list', 'tuple', 'dict.fromkeys') and \
+                s0.value.args and _key_is(s0.value.args[0], vararg):
+            stores = [n for n in walk_no_nested(r.fn) if isinstance(n, ast.Name) and n.id == s0.targets[0].id and
+                      isinstance(n.ctx, ast.Store)]
+            muts = [n for n in walk_no_nested(r.fn) if isinstance(n, ast.Call) and isinstance(n.func, ast.Attribute) and
+                    _key_is(n.func.value, s0.targets[0].id) and n.func.attr in ('remove', 'discard', 'pop', 'clear',
+                                                                                'difference_update')]
+            if len(stores) == 1 and not muts:
+                req.add(s0.targets[0].id)
     stages = [floop] + [l for l in walk_no_nested(r.fn) if isinstance(l, ast.For) and iter_source(l) == bmap]
     n = 0
     for lp in stages:
@@ -251,8 +269,10 @@ def r4_requested_stay_eligible(chk):
             if not any(norm(c).startswith("%s.get('noDeps'" % opt) for c in conj):
                 continue
             n += 1
+            conj = ir_conjuncts(s.test)
             ok = any(isinstance(c, ast.Compare) and len(c.ops) == 1 and isinstance(c.ops[0], ast.NotIn) and
-                     _key_is(c.left, k) and _key_is(c.comparators[0], vararg) for c in conj)
+                     _key_is(c.left, k) and isinstance(c.comparators[0], ast.Name) and c.comparators[0].id in req
+                     for c in conj)
             chk.ob('C19.R4', 'compile/noDeps-borrow-exclusion#%d' % n, ok, where(r.mod, s),
                    'exclusion `%s` does not keep requested names eligible' % norm(s.test))
     chk.floor('C19.R4', 2, 'two borrow stages')
